@@ -10,6 +10,8 @@
 //      sizes; CPU time of parse+serialize is measured per parser and super-linear growth is reported
 //   2  big-depth probes (stack use) for the parsers stage 1 found to scale linearly
 //   3  seeded structural mutations of the corpus documents (28 kinds, dealt round-robin)
+//   4  systematic sweep: every single-point edit (delete/duplicate an element, remove/empty an attribute, remove a text, move an
+//      element out of its namespace) of every top-level corpus document; complete in the thorough tier, a seeded sample in quick
 // Oracles (keys):
 //     C02:crash:<parser>:<what>            sanitizer report / signal / exit / time budget exceeded inside a library call
 //                                          (what = asan:<type> | ubsan:<file>:<line> | signal-N | exit-N | timeout)
@@ -51,12 +53,13 @@ enum {
     C_FIX_ORDER_ONLY, C_OWN_ORDER_ONLY, C_OWN_NOT_ADMITTED, C_MUT_NOT_WF, C_MUT_NOT_APPLICABLE, C_PASS, C_FAIL, C_NSDECL_ONLY, C_XCHECK,
     C_DEFAULT_NOT_ADMITTED, C_PROBE_ITEMS, C_PASSTHROUGH_ALTERS_NONOWN,
     C_KIND0 = 40,      // + mutation kind (M_KINDS <= 28); C_KIND0-1 = unmutated
+    C_SWEEP0 = 30,     // + sweep type (SW_TYPES <= 8)
     C_KINDCPU0 = 70,   // + mutation kind: CPU milliseconds spent on items of that kind
     C_PARSER0 = 100,   // + parser index: admitted pairs per parser
     C_NOTADM0 = 300,   // + parser index: own output not admitted by the parser's own type check
 };
 
-enum { W_DOC, W_MUT, W_DEFAULT, W_PROBE };
+enum { W_DOC, W_MUT, W_DEFAULT, W_PROBE, W_SWEEP };
 enum { SH_DEPTH, SH_DEPTH_UNIT, SH_CHILDREN, SH_ATTR_LEN, SH_TEXT_LEN, SH_COUNT };
 static const char *shapeName(int s)
 {
@@ -76,6 +79,7 @@ struct Cfg {
     bool list = false;
     bool showNotAdmitted = false;
     int cpuBudget = 20;
+    int sweepShare = -1;   // percent of the single-point sweep space that is run
     std::string singleProbe;
     std::string shrinkKey, shrinkParser, shrinkFile;
 };
@@ -232,10 +236,21 @@ static void disarm()
     setitimer(ITIMER_VIRTUAL, &it, nullptr);
     alarm(0);
 }
+// Fill the stack region the next call will use with a recognisable non-zero pattern, so that a local the library forgets to
+// initialise holds 0xAB.. instead of whatever the previous call left there: UBSan's invalid-enum/bool checks then fire (or not)
+// deterministically. (Heap memory is already filled with 0xBE by ASan's allocator.)
+__attribute__((noinline)) static void dirtyStack()
+{
+    volatile unsigned char pad[192 * 1024];
+    for (size_t i = 0; i < sizeof pad; i += 1) pad[i] = 0xAB;
+    __asm__ volatile("" ::: "memory");
+}
+
 static long long g_lastCallMicros = 0, g_lastCallAlloc = 0;
 template<typename F>
 static auto timed(Status *st, F &&f)
 {
+    dirtyStack();
     long long a0 = g_allocBytes;
     long long t0 = cpuMicros();
     arm(g_cfg.cpuBudget);
@@ -460,6 +475,20 @@ static void runItem(const Work &w, int itemIdx, int resumeParser, Status *st, in
         st->counters[C_KINDCPU0 + kind] += (cpuMicros() - c0) / 1000;
         break;
     }
+    case W_SWEEP: {
+        // w.mut = index of the single-point edit in the deterministic enumeration of document w.doc
+        Node n = g_nodes[w.doc];
+        auto ops = enumerateSweep(n);
+        if (w.mut < 0 || size_t(w.mut) >= ops.size()) return;
+        std::string mutDesc = applySweep(n, ops[w.mut]);
+        if (mutDesc.empty()) { st->counters[C_MUT_NOT_APPLICABLE]++; return; }
+        st->counters[C_SWEEP0 + ops[w.mut].type]++;
+        QByteArray in = render(n);
+        printf("D %s\t%s\t%s\n", g_docs[w.doc].id.c_str(), mutDesc.c_str(), escLine(in, 4000).c_str());
+        fflush(stdout);
+        explore(in, g_docs[w.doc].id, mutDesc, -1, resumeParser, st, samplesLeft, "", true);
+        break;
+    }
     case W_DEFAULT: {
         if (resumeParser >= w.parser) return;
         const vt::Codec &c = g_table[w.parser];
@@ -503,6 +532,7 @@ int main(int argc, char **argv)
         else if (s == "--per-doc") g_cfg.perDoc = atoi(next().c_str());
         else if (s == "--no-mutations") g_cfg.mutations = false;
         else if (s == "--no-probes") g_cfg.probes = false;
+        else if (s == "--sweep") g_cfg.sweepShare = atoi(next().c_str());
         else if (s == "--list") g_cfg.list = true;
         else if (s == "--show-not-admitted") g_cfg.showNotAdmitted = true;
         else if (s == "--cpu-budget") g_cfg.cpuBudget = atoi(next().c_str());
@@ -515,7 +545,8 @@ int main(int argc, char **argv)
     if (g_cfg.workers > 32) g_cfg.workers = 32;
     bool quick = g_cfg.tier == "quick";
     if (g_cfg.depth <= 0) g_cfg.depth = quick ? 1000 : 10000;
-    if (g_cfg.perDoc < 0) g_cfg.perDoc = quick ? 6 : 60;
+    if (g_cfg.perDoc < 0) g_cfg.perDoc = quick ? 4 : 40;
+    if (g_cfg.sweepShare < 0) g_cfg.sweepShare = quick ? 6 : 100;
 
     {   // registers the QXmppExportData extension parsers (roster, vcard) as a real client does
         QXmppClient registrar;
@@ -643,7 +674,7 @@ int main(int argc, char **argv)
                 bool inLibrary = r.phase == PH_ADMIT || r.phase == PH_RUN1 || r.phase == PH_RUN2 || r.phase == PH_RUN3;
                 std::string docId = "?", kind = "none", xml;
                 if (w) {
-                    if (w->type == W_DOC || w->type == W_MUT) { docId = g_docs[w->doc].id; xml = escLine(g_docs[w->doc].xml, 700); if (w->type == W_MUT) kind = mutName(w->kind); }
+                    if (w->type == W_DOC || w->type == W_MUT || w->type == W_SWEEP) { docId = g_docs[w->doc].id; xml = escLine(g_docs[w->doc].xml, 700); if (w->type == W_MUT) kind = mutName(w->kind); if (w->type == W_SWEEP) kind = "sweep"; }
                     else if (w->type == W_DEFAULT) docId = "default:" + g_table[w->parser].name;
                     else { docId = std::string("probe:") + templates()[w->doc].name + ":" + shapeName(w->shape) + "=" + std::to_string(w->size); xml = templates()[w->doc].xml; kind = shapeName(w->shape); }
                     if (w->type == W_PROBE && (w->shape == SH_DEPTH || w->shape == SH_DEPTH_UNIT)) probeCrashed.insert(parser);
@@ -657,7 +688,7 @@ int main(int argc, char **argv)
                 auto ep = tail.find("ERROR: ");
                 if (ep == std::string::npos) ep = tail.find("runtime error: ");
                 std::string first = ep == std::string::npos ? "" : tail.substr(ep, tail.find('\n', ep) - ep);
-                if (!lastD.isEmpty() && w && w->type == W_MUT) {
+                if (!lastD.isEmpty() && w && (w->type == W_MUT || w->type == W_SWEEP)) {
                     auto df = lastD.split('\t');
                     if (df.size() == 3 && !df[2].contains("...[")) dumpFailingInput(key, parser, (df[0] + "|" + df[1]).toStdString(), unescLine(df[2]));
                 } else if (w && w->type == W_DOC) dumpFailingInput(key, parser, docId, g_docs[w->doc].xml);
@@ -867,6 +898,25 @@ int main(int argc, char **argv)
         runStage("s3", work, 24);
     }
 
+    // ---- stage 4: systematic single-point sweep over the top-level documents (seed only selects the sample in the quick tier)
+    if (g_cfg.mutations) {
+        std::vector<Work> all;
+        for (size_t i = g_nRegress; i < g_nTop; i++) {
+            Node n = g_nodes[i];
+            size_t nops = enumerateSweep(n).size();
+            for (size_t o = 0; o < nops; o++) all.push_back({ W_SWEEP, int(i), int(o), -1, -1, 0, 0 });
+        }
+        vh::stat("sweep_space", long(all.size()));
+        std::vector<Work> work;
+        if (g_cfg.sweepShare >= 100) work = all;
+        else {
+            vh::Rng sr(g_cfg.seed * 31337ull + 3);
+            for (auto &w : all) if (int(sr.below(100)) < g_cfg.sweepShare) work.push_back(w);
+        }
+        vh::stat("sweep_items", long(work.size()));
+        runStage("s4", work, 32);
+    }
+
     // ---- totals
     long long *T = pool.totals;
     vh::oraclePass() = T[C_PASS];
@@ -912,6 +962,7 @@ int main(int argc, char **argv)
     vh::stat("workers", g_cfg.workers);
     vh::stat("wall_ms", wall.elapsed());
     vh::stat("kind:unmutated", T[C_KIND0 - 1]);
+    for (int k = 0; k < SW_TYPES; k++) vh::stat(std::string("kind:") + sweepName(k), T[C_SWEEP0 + k]);
     for (int k = 0; k < M_KINDS; k++) { vh::stat(std::string("kind:") + mutName(k), T[C_KIND0 + k]); vh::stat(std::string("kind_cpu_ms:") + mutName(k), T[C_KINDCPU0 + k]); }
     long never = 0;
     std::string neverNames;
